@@ -158,6 +158,8 @@ DispatchClauses(T, prev, ev, post) ==
         valid == ValidRequest(I, s, ev.j, ev.p, ev.m)
         ok == ev.out = "ok"
     IN If(ok /\ ~valid, {C("C09:accepted-invalid")})
+  \* "rejected dispatches notify nobody": a request that had to be rejected reached the observers
+  \cup If(ok /\ ~valid /\ ev.notes # <<>>, {C("C10:observers-notified-of-a-request-that-had-to-be-rejected")})
   \cup If(~ok /\ valid, {C("C09:rejected-valid")})
   \cup (IF ok /\ valid THEN
           LET exp == DispatchNext(I, s, ev.j, ev.m)
@@ -534,6 +536,7 @@ PlotClauses(T, prev, ev, post) ==
     LET I == T.inst  sch == ev.sched
  IN
     IF ev.out # "ok" THEN {Tag("C20:plot-raised", ev.out)}
+    ELSE IF "earlier_stable" \in DOMAIN ev /\ ~ev.earlier_stable THEN {C("C20:earlier-chart-changed-by-drawing-another")}
     ELSE IF ~WellTypedSchedule(I, sch) THEN {C("C20:bars")}
     ELSE LET present == {e[1] : e \in AllE(sch)}
              legJobs == [i \in DOMAIN ev.legend |-> ev.legend[i][1]]
